@@ -34,6 +34,8 @@ func runC05(c *eng.Ctx) {
 	ruleAppendAssignsEpochsFromTheCache(c)
 	ruleNotExistTestsSeeTheOSError(c)
 	ruleLoadedEpochsBecomeTheCache(c)
+	c.Rule("R05.8", "K2")
+	ruleRecoveredEpochStartsAtItsFirstMessage(c)
 	c.Rule("R05.8", "K5")
 	ruleRecoveredEntryIsTheLastAnswer(c)
 	// ---- R05.1
